@@ -13,6 +13,9 @@ pub struct GzFields {
     pub name: Option<Vec<u8>>,    // without the terminating NUL
     pub comment: Option<Vec<u8>>, // without the terminating NUL
     pub hcrc: bool,
+    /// the C int handed to deflateSetHeader when not 0 (any non-zero value requests a header CRC: -1, 2, i32::MIN);
+    /// `hcrc` must then be true
+    pub hcrc_val: i32,
 }
 
 impl GzFields {
